@@ -226,6 +226,9 @@ def report(prop: str, tier: str, results: List[Dict[str, Any]], wall: float, ver
                             "distinct": n["distinct"], "failures": len(n["failures"]), "known": n["known"],
                             "exhaustive": n["exhaustive"], "samples": n["samples"][:3], "wall_s": round(r["wall_s"], 2)})
             for f in n["failures"]:
+                # a bounded unit shared by several properties tags each failure with the property it breaks
+                if isinstance(f, dict) and f.get("property") and f["property"] != prop:
+                    continue
                 native_failures.append((r["name"], f))
             for kn in n["known"]:
                 known_hits.append(kn)
